@@ -149,7 +149,10 @@ def edits_of_topology(model, rng, n_inputs, max_list=1):
     for s in by("UsageJourneyStep"):
         edits += [("list", s, "jobs", x) for x in seqs(by("Job")) if x != model[s]["lst"]["jobs"]]
     inputs = []
+    reach = efx.reachable(model)
     for n in sorted(model):
+        if n not in reach and n_inputs is not None:
+            continue        # (sampled tier) an input of an object the system does not reach changes nothing
         for a, mv in model[n]["inp"].items():
             inputs.append(("input", n, a, [mv[0] * 2 + (1 if mv[0] == 0 else 0), mv[1]]))
     for up in by("UsagePattern"):
@@ -175,7 +178,13 @@ def replay_model_domain(ns, wd, out, tier, tid0):
     rng = random.Random(seed_from_env() + 4242)
     topos, res = emitted_topologies(wd)
     out.add_tlc(res, "MC_Update_Emit: the model's initial topologies, printed for replay on real systems")
-    chosen = topos if tier == "thorough" else rng.sample(topos, 6)
+    if tier == "thorough":
+        chosen = topos
+    else:
+        # half of the sample among the topologies in which a job, hence a server and a storage, is reached
+        with_jobs = [T for T in topos if any(T["jobsOf"][s] for uj in set(T["uj"].values()) for s in T["stepsOf"][uj])]
+        chosen = rng.sample(with_jobs, min(3, len(with_jobs)))
+        chosen += rng.sample([T for T in topos if T not in chosen], 6 - len(chosen))
     events, tid = [], tid0
     log = efx.EventLog(ns)
     n_edits = 0
